@@ -13,6 +13,9 @@ def key_of(cmp):
     return {"lt": (lambda v: v), "gt": (lambda v: -v), "half": (lambda v: v >> 1)}[cmp]
 
 
+RANK_TYPES = ["long", "int", "llong", "size_t", "uint", "uint", "ushort"]
+
+
 def make_run(rng, cmp, length, vals):
     """a run of `length` values from `vals`, sorted w.r.t. the comparator (equivalent values in random order)"""
     xs = [rng.choice(vals) for _ in range(length)]
@@ -55,6 +58,13 @@ def gen_many_runs(rng, cid):
         ranks = sorted(set([0, 1, N - 1, N] + [rng.randrange(N + 1) for _ in range(24)]))
     lines = [f"case m{cid}"]
     tail = " ".join(csv(r) for r in runs)
+    if rng.random() < 0.5:
+        lines.append(f"load {cmp} {tail}")
+        for r in ranks:
+            lines.append(f"p {rng.choice(RANK_TYPES)} {r}")
+            if r < N and rng.random() < 0.25:
+                lines.append(f"s {rng.choice(RANK_TYPES)} {r}")
+        return lines
     for r in ranks:
         lines.append(f"part {cmp} {r} {tail}")
         if r < N and rng.random() < 0.25:
@@ -91,6 +101,14 @@ def gen_case(rng, cid, tier):
         ranks = sorted(set([0, 1, N - 1, N, N // 2] + [rng.randrange(N + 1) for _ in range(8)]))
     lines = [f"case c{cid}"]
     tail = " ".join(csv(r) for r in runs)
+    if rng.random() < 0.5:
+        # the runs stay loaded as caller-owned storage; every call picks one of the rank types the API accepts
+        lines.append(f"load {cmp} {tail}")
+        for r in ranks:
+            lines.append(f"p {rng.choice(RANK_TYPES)} {r}")
+            if r < N and rng.random() < 0.6:
+                lines.append(f"s {rng.choice(RANK_TYPES)} {r}")
+        return lines
     for r in ranks:
         lines.append(f"part {cmp} {r} {tail}")
         if r < N and rng.random() < 0.6:
@@ -182,8 +200,14 @@ class C08(flow.Spec):
 
     def nontrivial(self, case, answers):
         keys = []
+        loaded = None
         for op, a in zip(case[1:], answers[1:]):
             t = op.split()
+            if t[0] == "load":
+                loaded = (t[1], t[2:])
+                continue
+            if t[0] == "p" and loaded is not None:
+                t = ["part", loaded[0], t[2]] + list(loaded[1])
             if t[0] != "part" or not a.startswith("offs "):
                 continue
             cmp, rank, runs = t[1], int(t[2]), [[int(x) for x in r.split(",")] for r in t[3:]]
